@@ -1,0 +1,377 @@
+//go:build verif
+
+package art
+
+// Read-only accessors and thin exports used by the verification harness in
+// /verif. Compiled only with `-tags verif`; nothing here is referenced by the
+// library itself.
+
+import (
+	"unsafe"
+)
+
+// VerifNode is a snapshot of one node of a tree (inner node or leaf).
+type VerifNode struct {
+	Kind int // 0: node4, 1: node16, 2: node48, 3: node256, 4: leaf
+	Addr uintptr
+
+	// inner nodes
+	ChildrenLen uint8
+	PrefixLen   uint32
+	Prefix      [maxPrefixLen]byte
+	Bytes       []byte       // branch bytes, in the order the node enumerates its children
+	Children    []*VerifNode // same order as Bytes
+	RawKeys     []byte       // node4: the 4 lanes (lane 0 first); node16: 16 lanes; node48: 256-entry index table; node256: nil
+	RawSlots    []uintptr    // every child slot's pointer word (including unoccupied slots)
+	RawTags     []uint8      // every child slot's tag
+
+	// leaves
+	Key     []byte // original key bytes as kept by the leaf (copy)
+	TKey    []byte // descent key bytes (copy)
+	KeyPtr  uintptr
+	TKeyPtr uintptr
+	Value   any
+}
+
+// VerifTree is a snapshot of a whole tree.
+type VerifTree struct {
+	Root    *VerifNode // nil when the tree is empty
+	RootTag uint8
+	Size    int
+}
+
+type verifDumper interface {
+	verifDump() *VerifTree
+}
+
+// VerifDump snapshots t. It returns nil if t is not one of the library's trees.
+func VerifDump(t any) *VerifTree {
+	d, ok := t.(verifDumper)
+	if !ok {
+		return nil
+	}
+	return d.verifDump()
+}
+
+type verifLeafFn func(unsafe.Pointer) (key, tkey []byte, keyPtr, tkeyPtr uintptr, val any)
+
+func verifClone(b []byte) []byte {
+	c := make([]byte, len(b))
+	copy(c, b)
+	return c
+}
+
+func verifWalkTree(root nodeRef, size int, leaf verifLeafFn) *VerifTree {
+	return &VerifTree{Root: verifWalk(root, leaf), RootTag: uint8(root.tag), Size: size}
+}
+
+func verifWalk(ref nodeRef, leaf verifLeafFn) *VerifNode {
+	if ref.pointer == nil {
+		return nil
+	}
+
+	out := &VerifNode{Kind: int(ref.tag), Addr: uintptr(ref.pointer)}
+	if ref.tag == nodeKindLeaf {
+		if leaf != nil {
+			out.Key, out.TKey, out.KeyPtr, out.TKeyPtr, out.Value = leaf(ref.pointer)
+		}
+		return out
+	}
+
+	n := ref.node()
+	out.ChildrenLen = n.childrenLen
+	out.PrefixLen = n.prefixLen
+	out.Prefix = n.prefix
+
+	add := func(b byte, c nodeRef) {
+		out.Bytes = append(out.Bytes, b)
+		out.Children = append(out.Children, verifWalk(c, leaf))
+	}
+	slots := func(cs []nodeRef) {
+		for i := range cs {
+			out.RawSlots = append(out.RawSlots, uintptr(cs[i].pointer))
+			out.RawTags = append(out.RawTags, uint8(cs[i].tag))
+		}
+	}
+
+	switch ref.tag {
+	case nodeKind4:
+		n4 := (*node4)(ref.pointer)
+		out.RawKeys = deconstruct(n4.keys)
+		slots(n4.children[:])
+		for i := 0; i < int(n4.childrenLen) && i < int(maxNode4); i++ {
+			add(getAtPos(n4.keys, i), n4.children[i])
+		}
+	case nodeKind16:
+		n16 := (*node16)(ref.pointer)
+		out.RawKeys = verifClone(n16.keys[:])
+		slots(n16.children[:])
+		for i := 0; i < int(n16.childrenLen) && i < int(maxNode16); i++ {
+			add(n16.keys[i], n16.children[i])
+		}
+	case nodeKind48:
+		n48 := (*node48)(ref.pointer)
+		out.RawKeys = verifClone(n48.keys[:])
+		slots(n48.children[:])
+		for i := 0; i < 256; i++ {
+			if idx := n48.keys[i]; idx != 0 && int(idx) <= int(maxNode48) {
+				add(byte(i), n48.children[idx-1])
+			}
+		}
+	case nodeKind256:
+		n256 := (*node256)(ref.pointer)
+		slots(n256.children[:])
+		for i := 0; i < 256; i++ {
+			if n256.children[i].pointer != nil {
+				add(byte(i), n256.children[i])
+			}
+		}
+	}
+	return out
+}
+
+func verifPlainLeaf[V any](key *byte, n uint32, val V) (k, tk []byte, kp, tkp uintptr, v any) {
+	b := verifClone(unsafe.Slice(key, n))
+	return b, b, uintptr(unsafe.Pointer(key)), uintptr(unsafe.Pointer(key)), val
+}
+
+func (t *alphaSortedTree[K, V]) verifDump() *VerifTree {
+	return verifWalkTree(t.root, t.size, func(p unsafe.Pointer) ([]byte, []byte, uintptr, uintptr, any) {
+		l := (*alphaLeafNode[V])(p)
+		return verifPlainLeaf(l.key, l.len, l.value)
+	})
+}
+
+func (t *unsignedSortedTree[K, V]) verifDump() *VerifTree {
+	return verifWalkTree(t.root, t.size, func(p unsafe.Pointer) ([]byte, []byte, uintptr, uintptr, any) {
+		l := (*unsignedLeafNode[V])(p)
+		return verifPlainLeaf(l.key, l.len, l.value)
+	})
+}
+
+func (t *signedSortedTree[K, V]) verifDump() *VerifTree {
+	return verifWalkTree(t.root, t.size, func(p unsafe.Pointer) ([]byte, []byte, uintptr, uintptr, any) {
+		l := (*signedLeafNode[V])(p)
+		return verifPlainLeaf(l.key, l.len, l.value)
+	})
+}
+
+func (t *floatSortedTree[K, V]) verifDump() *VerifTree {
+	return verifWalkTree(t.root, t.size, func(p unsafe.Pointer) ([]byte, []byte, uintptr, uintptr, any) {
+		l := (*floatLeafNode[V])(p)
+		return verifPlainLeaf(l.key, l.len, l.value)
+	})
+}
+
+func (t *compoundSortedTree[K, V]) verifDump() *VerifTree {
+	return verifWalkTree(t.root, t.size, func(p unsafe.Pointer) ([]byte, []byte, uintptr, uintptr, any) {
+		l := (*compoundLeafNode[V])(p)
+		return verifPlainLeaf(l.key, l.len, l.value)
+	})
+}
+
+func (t *collationSortedTree[K, V]) verifDump() *VerifTree {
+	return verifWalkTree(t.root, t.size, func(p unsafe.Pointer) ([]byte, []byte, uintptr, uintptr, any) {
+		l := (*collateLeafNode[V])(p)
+		return verifClone(l.getKey()), verifClone(l.getTransformKey()),
+			uintptr(unsafe.Pointer(l.key)), uintptr(unsafe.Pointer(l.colKey)), l.value
+	})
+}
+
+// ---------------------------------------------------------------------------
+// Bare inner node, driven without a tree around it.
+
+type verifChild struct{ id int }
+
+// VerifNodeHandle owns one inner node taken from the node pool.
+type VerifNodeHandle struct {
+	ref nodeRef
+}
+
+// VerifNewNode returns a handle on an empty node4 taken from the pool.
+func VerifNewNode() *VerifNodeHandle {
+	n4 := nodePools[nodeKind4].Get().(*node4)
+	return &VerifNodeHandle{ref: nodeRef{pointer: unsafe.Pointer(n4), tag: nodeKind4}}
+}
+
+// Add registers a child with the given id under b (b must not be registered).
+func (h *VerifNodeHandle) Add(b byte, id int) {
+	c := &verifChild{id: id}
+	h.ref.addChild(b, nodeRef{pointer: unsafe.Pointer(c), tag: nodeKindLeaf})
+}
+
+// Remove unregisters the child under b (b must be registered).
+func (h *VerifNodeHandle) Remove(b byte) { h.ref.deleteChild(b) }
+
+// Find probes b. When the handle collapsed to a single child (Kind()==4)
+// it reports nothing.
+func (h *VerifNodeHandle) Find(b byte) (int, bool) {
+	if h.ref.pointer == nil || h.ref.tag == nodeKindLeaf {
+		return 0, false
+	}
+	c := h.ref.findChild(b)
+	if c == nil || c.pointer == nil {
+		return 0, false
+	}
+	if c.tag != nodeKindLeaf {
+		return -1, true
+	}
+	return (*verifChild)(c.pointer).id, true
+}
+
+// Kind is 0..3 for node4..node256 and 4 once the node was merged away.
+func (h *VerifNodeHandle) Kind() int { return int(h.ref.tag) }
+
+// Len is the node's recorded fan-out.
+func (h *VerifNodeHandle) Len() int {
+	if h.ref.tag == nodeKindLeaf {
+		return 1
+	}
+	return int(h.ref.node().childrenLen)
+}
+
+// LeafID is the id of the surviving child once the node was merged away.
+func (h *VerifNodeHandle) LeafID() int {
+	if h.ref.tag != nodeKindLeaf || h.ref.pointer == nil {
+		return -1
+	}
+	return (*verifChild)(h.ref.pointer).id
+}
+
+func verifRestoreChild(p unsafe.Pointer) (int, int) { return (*verifChild)(p).id, 0 }
+
+// Forward returns the child ids in the order the library's ascending scan visits them.
+func (h *VerifNodeHandle) Forward() []int {
+	var ids []int
+	for id := range all[int, int](h.ref, verifRestoreChild) {
+		ids = append(ids, id)
+	}
+	return ids
+}
+
+// Reverse returns the child ids in the order the library's descending scan visits them.
+func (h *VerifNodeHandle) Reverse() []int {
+	var ids []int
+	for id := range backward[int, int](h.ref, verifRestoreChild) {
+		ids = append(ids, id)
+	}
+	return ids
+}
+
+// First and Last are the ids reached by the library's minimum / maximum descent.
+func (h *VerifNodeHandle) First() int {
+	if p := minimum[int](h.ref); p != nil {
+		return (*verifChild)(p).id
+	}
+	return -1
+}
+
+func (h *VerifNodeHandle) Last() int {
+	if p := maximum[int](h.ref); p != nil {
+		return (*verifChild)(p).id
+	}
+	return -1
+}
+
+// Snapshot dumps the node (children appear as leaves whose Value is the id).
+func (h *VerifNodeHandle) Snapshot() *VerifNode {
+	return verifWalk(h.ref, func(p unsafe.Pointer) ([]byte, []byte, uintptr, uintptr, any) {
+		return nil, nil, 0, 0, (*verifChild)(p).id
+	})
+}
+
+// SetPrefix sets the compressed path carried by the node (it must survive
+// every change of size class).
+func (h *VerifNodeHandle) SetPrefix(n uint32, p [maxPrefixLen]byte) {
+	if h.ref.tag == nodeKindLeaf {
+		return
+	}
+	h.ref.node().prefixLen = n
+	h.ref.node().prefix = p
+}
+
+func (h *VerifNodeHandle) Prefix() (uint32, [maxPrefixLen]byte) {
+	if h.ref.tag == nodeKindLeaf {
+		return 0, [maxPrefixLen]byte{}
+	}
+	return h.ref.node().prefixLen, h.ref.node().prefix
+}
+
+// Release clears the node and hands it back to the pool.
+func (h *VerifNodeHandle) Release() {
+	switch h.ref.tag {
+	case nodeKind4:
+		n := (*node4)(h.ref.pointer)
+		n.clear()
+		nodePools[nodeKind4].Put(n)
+	case nodeKind16:
+		n := (*node16)(h.ref.pointer)
+		n.clear()
+		nodePools[nodeKind16].Put(n)
+	case nodeKind48:
+		n := (*node48)(h.ref.pointer)
+		n.clear()
+		nodePools[nodeKind48].Put(n)
+	case nodeKind256:
+		n := (*node256)(h.ref.pointer)
+		n.clear()
+		nodePools[nodeKind256].Put(n)
+	}
+	h.ref = nodeRef{}
+}
+
+// ---------------------------------------------------------------------------
+// In-node search primitives.
+
+func VerifSearchNode4(keys uint32, b byte) int    { return searchNode4(keys, b) }
+func VerifInsertPosNode4(keys uint32, b byte) int { return insertPosNode4(keys, b) }
+func VerifSearchNode16(keys *[16]byte, n uint8, b byte) int {
+	return searchNode16(keys, n, b)
+}
+func VerifInsertPosNode16(keys *[16]byte, n uint8, b byte) int {
+	return insertPosNode16(keys, n, b)
+}
+
+// VerifPoolAudit takes up to n nodes from each pool, reports how many of them
+// were not in the all-zero state, and puts them back. Diagnostic only.
+func VerifPoolAudit(n int) (dirty [4]int) {
+	var n4s []*node4
+	var n16s []*node16
+	var n48s []*node48
+	var n256s []*node256
+	for i := 0; i < n; i++ {
+		a := nodePools[nodeKind4].Get().(*node4)
+		if *a != (node4{}) {
+			dirty[0]++
+		}
+		n4s = append(n4s, a)
+		b := nodePools[nodeKind16].Get().(*node16)
+		if *b != (node16{}) {
+			dirty[1]++
+		}
+		n16s = append(n16s, b)
+		c := nodePools[nodeKind48].Get().(*node48)
+		if *c != (node48{}) {
+			dirty[2]++
+		}
+		n48s = append(n48s, c)
+		d := nodePools[nodeKind256].Get().(*node256)
+		if *d != (node256{}) {
+			dirty[3]++
+		}
+		n256s = append(n256s, d)
+	}
+	for _, x := range n4s {
+		nodePools[nodeKind4].Put(x)
+	}
+	for _, x := range n16s {
+		nodePools[nodeKind16].Put(x)
+	}
+	for _, x := range n48s {
+		nodePools[nodeKind48].Put(x)
+	}
+	for _, x := range n256s {
+		nodePools[nodeKind256].Put(x)
+	}
+	return dirty
+}
